@@ -11,9 +11,15 @@ pub mod sup {
     include!(concat!(env!("PRECIS_VERIF_DIR"), "/kani/support.rs"));
 }
 include!(concat!(env!("PRECIS_VERIF_DIR"), "/build/gen/oracle.rs"));
-#[cfg(kani)]
+#[allow(dead_code)]
 pub mod stubs {
     include!(concat!(env!("PRECIS_VERIF_DIR"), "/kani/stubs.rs"));
+}
+pub mod c02 {
+    include!(concat!(env!("PRECIS_VERIF_DIR"), "/kani/bodies/c02.rs"));
+}
+pub mod c03 {
+    include!(concat!(env!("PRECIS_VERIF_DIR"), "/kani/bodies/c03.rs"));
 }
 pub mod c10 {
     include!(concat!(env!("PRECIS_VERIF_DIR"), "/kani/bodies/c10.rs"));
